@@ -3,6 +3,8 @@
 import json, glob, os
 rows = []
 for d in sorted(glob.glob('/verif/seeded/*/')):
+    if not os.path.exists(d + 'meta.json'):
+        continue
     m = json.load(open(d + 'meta.json'))
     c = m.get('confirmed', {})
     rows.append((os.path.basename(d.rstrip('/')), m.get('summary', '')[:160].replace('|', '/'), m.get('needs', '')[:140].replace('|', '/'),
